@@ -16,6 +16,7 @@ noncomputable instance : Transc ℝ where
   rpow x y := x ^ y
   exp := Real.exp
   log := Real.log
+  log10 x := Real.log x / Real.log 10
   sqrt := Real.sqrt
   gamma := Real.Gamma
   pi := Real.pi
@@ -29,6 +30,7 @@ noncomputable instance : Transc ℝ where
 @[simp] theorem rpow_real (x y : ℝ) : Transc.rpow x y = x ^ y := rfl
 @[simp] theorem exp_real (x : ℝ) : Transc.exp x = Real.exp x := rfl
 @[simp] theorem log_real (x : ℝ) : Transc.log x = Real.log x := rfl
+@[simp] theorem log10_real (x : ℝ) : Transc.log10 x = Real.log x / Real.log 10 := rfl
 @[simp] theorem sqrt_real (x : ℝ) : Transc.sqrt x = Real.sqrt x := rfl
 @[simp] theorem gamma_real (x : ℝ) : Transc.gamma x = Real.Gamma x := rfl
 @[simp] theorem pi_real : (Transc.pi : ℝ) = Real.pi := rfl
